@@ -144,6 +144,16 @@ func VHBridgeFunction() {
 	vGot.ints, vGot.floats, vGot.bools, vGot.strs, vGot.calls = nil, nil, nil, nil, 0
 	vGot.retErr = vBool("host.returns.error")
 	fs := &functionStorer{functionsByID: map[string]YarnSpinnerFunction{}}
+	// a history of registrations: every other bridgeable signature of the list is registered first (a host
+	// registers many functions, and the built-in table does so for every runner), so that state shared
+	// between registrations (caches keyed too coarsely, ...) shows
+	if vParam("HISTORY", 1) != 0 {
+		for i, other := range sigs {
+			if other.accept && i != vParam("SIG", 0) {
+				fs.convertAndAddFunction("other"+vItoa(i), other.f)
+			}
+		}
+	}
 	var regErr error
 	panicked := vTry(func() { regErr = fs.convertAndAddFunction("f", sig.f) })
 	vAssert(!panicked, "registration never panics: "+sig.name)
